@@ -206,12 +206,28 @@ PPrimary(ts, p, ns) ==
                           lib == IF HasPrefix(ns, pfx) THEN LibOfUri(UriOfPrefix(ns, pfx)) ELSE "" IN
                       IF lib = "" \/ loc \notin ExtFns[lib] THEN Fail
                       ELSE Ok([op |-> "xfn", lib |-> lib, name |-> ts[p].xname, args |-> a.ast], a.p)
-            ELSE IF ~KnownFn(ts[p].s) \/ Len(a.ast) \notin ArityOf(ts[p].s) THEN Fail
+            ELSE IF ~KnownFn(ts[p].s) THEN Fail
+            \* A call with the wrong number of arguments is derivable from the grammar (production [16]); 3.2 makes it "an error",
+            \* without saying when.  It parses to a node whose EVALUATION is an error (XPathSem!Eval), and a processor may also
+            \* refuse the whole expression up front (HasBadCall, used by the trace specs to accept either).
+            ELSE IF Len(a.ast) \notin ArityOf(ts[p].s) THEN Ok([op |-> "badcall", name |-> ts[p].s, args |-> a.ast], a.p)
             ELSE Ok([op |-> "fn", name |-> ts[p].s, args |-> a.ast], a.p)
   ELSE Fail
 
 (* the whole token string must be consumed *)
 Parse(ts, ns) == LET r == PExpr(ts, 1, ns) IN IF r.ok /\ r.p = Len(ts) + 1 THEN r ELSE Fail
+
+(* does the expression contain a call with the wrong number of arguments (anywhere, evaluated or not) *)
+RECURSIVE HasBadCall(_)
+HasBadCallSeq(es) == \E i \in 1..Len(es) : HasBadCall(es[i])
+HasBadCall(e) ==
+  CASE e.op = "badcall" -> TRUE
+    [] e.op \in {"fn", "xfn"} -> HasBadCallSeq(e.args)
+    [] e.op = "bin" -> HasBadCall(e.a) \/ HasBadCall(e.b)
+    [] e.op = "neg" -> HasBadCall(e.a)
+    [] e.op = "filter" -> HasBadCall(e.e) \/ HasBadCallSeq(e.preds)
+    [] e.op = "path" -> HasBadCall(e.start) \/ \E i \in 1..Len(e.steps) : HasBadCallSeq(e.steps[i].preds)
+    [] OTHER -> FALSE
 
 RECURSIVE HasUnmLiteral(_)
 HasUnmLiteral(ts) == \E i \in 1..Len(ts) : ts[i].k = "num" /\ IsUnm(StrToNum(ts[i].cp))
